@@ -303,6 +303,43 @@ Definition run (fuel : nat) (t : term) (p : pipe) : runres :=
   | _ => loop fuel p t (snd (build p)) tst0
   end.
 
+(* ------------------------------------------------------------------ multiUse (one consumer)
+   List.MultiUse hands the list to its consumers through iterator.CopyProducer: `run` pulls an element
+   from the pipeline and then offers it to every consumer that has not stopped.  Sequential abstraction
+   for one consumer: when the consumer has stopped (returned from its loop), `run` is already asking
+   the pipeline for the NEXT element and notices only when it tries to hand it over.  That read-ahead
+   is one element of multiUse's input: the pipeline is stepped until it yields again (or ends/fails).
+   The goroutine interleaving is not modelled; only the demand is (judged by counts in the harness). *)
+Fixpoint drain (fuel : nat) (p : pipe) (q : pstate) : log * nat :=
+  match fuel with
+  | O => ([], O)
+  | S f =>
+      match next p q with
+      | (l, Skip q') => let (l', n) := drain f p q' in (l ++ l', S n)
+      | (l, _) => (l, 1%nat)
+      end
+  end.
+
+Fixpoint loop_ra (fuel : nat) (p : pipe) (t : term) (q : pstate) (s : tst) : runres :=
+  match fuel with
+  | O => ([], OutOfFuel, O)
+  | S f =>
+      match next p q with
+      | (l, Done) => (l, term_done t s, 1%nat)
+      | (l, Fail e) => (l, OErr e, 1%nat)
+      | (l, Skip q') =>
+          match loop_ra f p t q' s with (l', o, n) => (l ++ l', o, S n) end
+      | (l, Item v q') =>
+          match term_item t s v with
+          | (l1, TStop o) => let (l2, n2) := drain f p q' in (l ++ l1 ++ l2, o, S n2)
+          | (l1, TCont s') =>
+              match loop_ra f p t q' s' with (l', o, n) => (l ++ l1 ++ l', o, S n) end
+          end
+      end
+  end.
+
+Definition run_multi1 (fuel : nat) (t : term) (p : pipe) : runres := loop_ra fuel p t (init p) tst0.
+
 (* ------------------------------------------------------------------ counting *)
 
 Definition ev_is (id : N) (e : event) : bool := match e with Ev i _ => N.eqb i id end.
